@@ -133,4 +133,16 @@ def RangeOK (r : Range) : Bool :=
    | some n => decide (n.bits ≤ 32) && decide (n.addr < 4294967296) && n.addr % 2 ^ (32 - n.bits) == 0) &&
   r.ports.all (fun pr => decide (pr.1 ≤ pr.2) && decide (pr.2 ≤ 65535))
 
+/-- segmentation offload beyond 16 bits: the frame's IPv4 header (at the link layer's payload offset) has total
+    length 0 and 65536 or more bytes follow from that header on.  `Spec/Frame.lean` reads "the datagram is whatever
+    was captured" modulo 65536 for such a frame (as gopacket's `uint16(len(data))` does), so for it — and only for
+    it — well-formedness of the whole frame and of its captured prefix can differ.  Never true of an ARP scan. -/
+def offloadWrap (k : Kind) (vpn : Bool) (f : Bytes) : Bool :=
+  match k with
+  | .arp => false
+  | _ =>
+    match ipOffset vpn f with
+    | none => false
+    | some o => u16 f (o + 2) == some 0 && decide (65536 ≤ f.length - o)
+
 end SxVerif.Spec.Reply
